@@ -1,10 +1,13 @@
 import N0Verif.Proofs.FindAll
+import N0Verif.Proofs.FindAllDesc
 import N0Verif.Props.C01
 /-!
 # C19 — dictionary findall returns complete, resolvable, history-independent results
 
-Only property statements live here; the lemmas are in `Proofs/FindAll.lean`, the model in
-`Model/FindAll.lean` (it follows the code with `fixes/C19-a.patch` and `fixes/C19-b.patch` applied).
+Only property statements live here; the lemmas are in `Proofs/FindAll.lean` and
+`Proofs/FindAllDesc.lean`, the model in
+`Model/FindAll.lean` (it follows the code with `fixes/C19-a.patch`, `fixes/C19-b.patch` and
+`fixes/C19-c.patch` applied).
 
 Reading.  The engine keeps two mutable default arguments.  The model threads the contents of the
 two objects a call receives in and out of every call (`Out.fl`, `Out.ps`), and the top-level entry
@@ -160,7 +163,43 @@ theorem C19_fanout_all (re : Bool) (fuel : Nat) (cls : Cls) (xs : List Val) (nam
   simp only [stepStar, he, Bool.false_eq_true, if_false]
   exact starLoop_fan _ re _ (fun c cur => fa_dl re fuel c _ cur _) xs hall 0 fl []
 
-/-! ## statements kept visible, checked differentially only -/
+/-! ## 5. the descendant wildcard `'//*/name'`
+
+Hypotheses on the tree (structural, `Proofs/FindAllDesc.lean`): `KeysOkV t` — every key is a plain
+name and no dictionary lists a key twice (a Python `dict` cannot; the model's association lists
+could); `ContOkV t` — every list contains only dictionaries or lists (the property's quantifier).
+`descV name t` lists, in document order, the positions (relative to `t`) whose last segment is the
+key `name`, with the node there: for a dictionary its own entry `name` first, then what lies below
+each child in the order of the keys; for a list what lies below each element in order. -/
+
+/-- **Completeness of the descendant wildcard, in document order.**  On a dict-rooted tree whose
+lists contain only containers, `'//*/name'` returns exactly the pairs (canonical xpath of `p`,
+node at `p`) for the positions `p` of `descV`, in that order — the `*` step first tries `name` on
+the current node and then descends with the `*` kept into every container child. -/
+theorem C19_descendant_complete (cls : Cls) (kvs : List (Str × Val)) (name : Str) (hn : PlainKey name)
+    (hk : KeysOkV (.dict cls kvs)) (hc : ContOkV (.dict cls kvs)) :
+    ∃ n, ∀ fuel ≥ n,
+      (findallTop fuel fresh (.dict cls kvs) (['/', '/', '*', '/'] ++ name)).res =
+        .ok (some ((descV name (.dict cls kvs)).map (fun pv => (slash ++ renderPos pv.1, pv.2)))) := by
+  obtain ⟨n, hN⟩ := fad_descendant true hn cls kvs hk hc
+  refine ⟨n, fun fuel hf => ?_⟩
+  show (fa true fuel _ (tokens _) [] []).res = _
+  rw [fad_tokens_desc hn]
+  exact hN fuel hf
+
+/-- **Both inclusions**: `descV` lists a pair `(p, w)` iff `p` ends with the key `name` and the
+node at `p` is `w` — every node called `name`, at any depth, reachable through dictionaries and
+lists, and nothing else. -/
+theorem C19_descendant_positions (t : Val) (name : Str) (hk : KeysOkV t) (p : Pos) (w : Val) :
+    (p, w) ∈ descV name t ↔ (∃ q, p = q ++ [.key name]) ∧ getAt t p = some w :=
+  (fad_desc_mem name).1 t hk p w
+
+/-- no position is listed twice, and distinct positions have distinct canonical xpaths (so that
+`dict.update` never overwrites a pair) -/
+theorem C19_descendant_distinct (t : Val) (name : Str) (hk : KeysOkV t) :
+    (descV name t).Pairwise (fun a b => a.1 ≠ b.1) ∧
+    ∀ p q : Pos, PlainPos p → PlainPos q → slash ++ renderPos p = slash ++ renderPos q → p = q :=
+  ⟨((fad_desc_distinct name).1 t hk).1, fun p q hp hq h => fad_renderPos_inj p q hp hq (List.append_cancel_left h)⟩
 
 /-- every list of the tree contains only dictionaries or lists (the property's quantifier) and
 every key is a plain name -/
@@ -168,22 +207,74 @@ def GoodTree (t : Val) : Prop :=
   ∀ p v, getAt t p = some v → PlainPos p ∧
     (∀ cls xs, v = .list cls xs → ∀ x ∈ xs, FindAll.isContainer x = true)
 
-/-- `'//*/name'` finds every node called `name` at any depth and nothing else (evaluator
-`descendant`, independent DFS oracle) -/
-def C19_descendant_complete_stmt : Prop :=
-  ∀ (cls : Cls) (kvs : List (Str × Val)) (name : Str), PlainKey name → GoodTree (.dict cls kvs) →
+/-- the structural hypotheses say what `GoodTree` says (and that keys are not repeated) -/
+theorem C19_goodTree_of_ok (t : Val) (hk : KeysOkV t) (hc : ContOkV t) : GoodTree t := by
+  intro p v h
+  refine ⟨(fad_keysOk_getAt p hk h).1, ?_⟩
+  intro cls xs hv x hx
+  have := fad_contOk_getAt p hc h
+  subst hv
+  simp only [ContOkV] at this
+  exact fad_contOk_mem this hx
+
+/-- the statement in the form "found iff it is a node called `name`" (membership, both ways) -/
+theorem C19_descendant_complete_iff (cls : Cls) (kvs : List (Str × Val)) (name : Str) (hn : PlainKey name)
+    (hk : KeysOkV (.dict cls kvs)) (hc : ContOkV (.dict cls kvs)) :
     ∃ n, ∀ fuel ≥ n, ∃ f,
       (findallTop fuel fresh (.dict cls kvs) (['/', '/', '*', '/'] ++ name)).res = .ok (some f) ∧
       ∀ xp v, (xp, v) ∈ f ↔
-        ∃ p, getAt (.dict cls kvs) (p ++ [.key name]) = some v ∧ xp = slash ++ renderPos (p ++ [.key name])
+        ∃ p, getAt (.dict cls kvs) (p ++ [.key name]) = some v ∧ xp = slash ++ renderPos (p ++ [.key name]) := by
+  obtain ⟨n, hN⟩ := C19_descendant_complete cls kvs name hn hk hc
+  refine ⟨n, fun fuel hf => ⟨_, hN fuel hf, fun xp v => ?_⟩⟩
+  simp only [List.mem_map, Prod.mk.injEq]
+  constructor
+  · rintro ⟨⟨p, w⟩, hm, rfl, rfl⟩
+    obtain ⟨⟨q, rfl⟩, hg⟩ := (C19_descendant_positions _ name hk p w).1 hm
+    exact ⟨q, hg, rfl⟩
+  · rintro ⟨q, hg, rfl⟩
+    exact ⟨(q ++ [.key name], v), (C19_descendant_positions _ name hk _ v).2 ⟨⟨q, rfl⟩, hg⟩, rfl, rfl⟩
 
-/-- every key of every result without a `text()` step resolves through item access to the value
-found (evaluator `resolves`; `text()` keys are finding C19-c) -/
-def C19_resolves_all_stmt : Prop :=
-  ∀ (cls : Cls) (kvs : List (Str × Val)) (e : Str), GoodTree (.dict cls kvs) →
-    (∀ tok ∈ tokens e, ∀ eq v, classify tok ≠ .text eq v) →
-    ∀ fuel f, (findallTop fuel fresh (.dict cls kvs) e).res = .ok (some f) →
-      ∀ xp v, (xp, v) ∈ f → ∃ n, ∀ fuel' ≥ n, getItem fuel' (.dict cls kvs) xp = (.dict cls kvs, .ok v)
+/-! ## 6. every key resolves
+
+`FadInv` (`Proofs/FindAllDesc.lean`) is the invariant "the found-path list always renders the
+position of the current node": the list is the text of groups (a key and the integer indexes
+appended to it — negative ones as written, `last()-k` as the integer it evaluates to) that spell a
+walk from the root to the node, and every proper prefix of the list that is registered in the
+stack is registered with the node it leads to (what `'..'` relies on).  It is preserved by every
+branch of `_findall` (`fad_step_ok`: name, `*` self check and descent, name on a list, integer
+index, `[*]` loop with its in-place updates, `'..'`, `text()` condition — which since
+`fixes/C19-c.patch` only filters), for every fuel, with the state threading of the model. -/
+
+/-- **Every key spells the position of its value.**  For every expression, every pair `(xp, v)` of
+the result has `xp = "//" ++ steps` for steps (plain keys, attached integer indexes) along which
+plain Python indexing from the root reaches `v`. -/
+theorem C19_keys_spell (cls : Cls) (kvs : List (Str × Val)) (e : Str) (hk : KeysOkV (.dict cls kvs))
+    (fuel : Nat) (f : Found) (h : (findallTop fuel fresh (.dict cls kvs) e).res = .ok (some f))
+    (xp : Str) (v : Val) (hm : (xp, v) ∈ f) :
+    ∃ steps, PlainSteps steps ∧ xp = renderSp .two steps ∧ stepsGet (.dict cls kvs) steps = some v := by
+  obtain ⟨gs, hp, hkey, hget⟩ := fad_findall_spells cls kvs hk e fuel f h (xp, v) hm
+  exact ⟨stepsOfG gs, fad_plainSteps gs hp, hkey.trans (fad_keyOf_renderSp gs hp), hget⟩
+
+/-- **Every key of every result resolves through item access (and `get`) to the value found**
+(model of `n0dict.__getitem__`, C01 engine; `C01_spellings_string`), whatever the expression —
+names, `*`, indexes in every spelling, `[*]`, `'..'`, `text()` conditions — and the lookup leaves
+the tree as it is. -/
+theorem C19_resolves_all (cls : Cls) (kvs : List (Str × Val)) (e : Str) (hk : KeysOkV (.dict cls kvs))
+    (fuel : Nat) (f : Found) (h : (findallTop fuel fresh (.dict cls kvs) e).res = .ok (some f))
+    (xp : Str) (v : Val) (hm : (xp, v) ∈ f) :
+    ∃ n, ∀ fuel' ≥ n, getItem fuel' (.dict cls kvs) xp = (.dict cls kvs, .ok v) ∧
+      ∀ d, get fuel' (.dict cls kvs) xp d = (.dict cls kvs, .ok v) := by
+  obtain ⟨steps, hp, rfl, hget⟩ := C19_keys_spell cls kvs e hk fuel f h xp v hm
+  by_cases hne : steps = []
+  · subst hne
+    rw [fad_stepsGet_nil] at hget
+    cases hget
+    refine ⟨1, fun fuel' hf => ?_⟩
+    obtain ⟨k, rfl⟩ : ∃ k, fuel' = k + 1 := ⟨fuel' - 1, by omega⟩
+    exact ⟨fad_getItem_root k cls kvs, fun d => fad_get_root k cls kvs d⟩
+  · exact ⟨2 * steps.length, fun fuel' hf =>
+      ⟨(C01.C01_spellings_string cls kvs .two steps v Val.none hp hne hget fuel' hf).1,
+       fun d => (C01.C01_spellings_string cls kvs .two steps v d hp hne hget fuel' hf).2⟩⟩
 
 /-! ## findings and non-vacuity -/
 
@@ -192,13 +283,15 @@ def exTree : Val :=
              (['l'], .list .n0 [.dict .n0 [(['n'], .int 1)], .list .plain [.dict .plain [(['n'], .int 5)]]]),
              (['n'], .int 0)]
 
-/-- **C19-c (open finding).**  A `text()` condition is kept verbatim in the key; item access reads
-the same text as its own, case-sensitive condition, and does not find the value. -/
-theorem C19_text_key_cex :
+/-- **C19-c (fixed by `fixes/C19-c.patch`).**  A `text()` condition is no longer kept in the key:
+the witness of the former finding returns the xpath of the node, which item access resolves (the
+comparison of findall is case-insensitive, `<>` is an operator item access does not know). -/
+theorem C19_text_key_fixed :
     (findallTop 20 fresh exTree ['a', '/', 'k', '[', 't', 'e', 'x', 't', '(', ')', '=', 'v', ']']).res
-      = .ok (some [(['/', '/', 'a', '/', 'k', '[', 't', 'e', 'x', 't', '(', ')', '=', 'v', ']'], .str ['V'])]) ∧
-    (getItem 20 exTree ['/', '/', 'a', '/', 'k', '[', 't', 'e', 'x', 't', '(', ')', '=', 'v', ']']).2
-      = .error .IndexError := by decide
+      = .ok (some [(['/', '/', 'a', '/', 'k'], .str ['V'])]) ∧
+    (findallTop 20 fresh exTree ['a', '/', 'k', '[', 't', 'e', 'x', 't', '(', ')', '<', '>', 'w', ']']).res
+      = .ok (some [(['/', '/', 'a', '/', 'k'], .str ['V'])]) ∧
+    getItem 20 exTree ['/', '/', 'a', '/', 'k'] = (exTree, .ok (.str ['V'])) := by decide
 
 /-- outside the quantifier: a list of scalars under a wildcard raises -/
 theorem C19_scalar_in_list_cex :
@@ -239,5 +332,30 @@ example : (fa true 20 (.list .n0 [.dict .n0 []]) [['[', '0', ']']] [['l']] []).f
 -- `C19_fanout_all`: both elements are visited
 example : (fa true 20 (.list .n0 [.dict .n0 [(['n'], .int 1)], .dict .n0 [(['n'], .int 2)]]) [['n']] [['l']] []).res
     = .ok (some [(['/', '/', 'l', '[', '0', ']', '/', 'n'], .int 1), (['/', '/', 'l', '[', '1', ']', '/', 'n'], .int 2)]) := by decide
+
+-- `C19_descendant_complete` & co.: the tree satisfies the hypotheses; the nodes it must find
+example : KeysOkV exTree ∧ ContOkV exTree := by
+  have pk : ∀ c : Char, plainChar c = true → PlainKey [c] :=
+    fun c h => ⟨by simp, by simpa using h, by simp⟩
+  simp only [exTree, KeysOkV, KeysOkK, KeysOkL, ContOkV, ContOkK, ContOkL, lookup, FindAll.isContainer]
+  refine ⟨?_, by decide⟩
+  repeat' apply And.intro
+  all_goals first | exact pk _ (by decide) | trivial | decide
+example : descV ['n'] exTree = [([.key ['n']], .int 0), ([.key ['l'], .idx 0, .key ['n']], .int 1),
+    ([.key ['l'], .idx 1, .idx 0, .key ['n']], .int 5)] := by
+  simp [exTree, descV, descK, descL, lookup]
+-- `C19_keys_spell` / `C19_resolves_all`: negative index, `[*]` on a nested list, name, `'..'`
+-- (a `text()` condition followed by `'..'`: below; ending in a condition: `C19_text_key_fixed`)
+def exExpr : Str := ['l', '[', '-', '1', ']', '/', '[', '*', ']', '/', 'n', '/', '.', '.']
+example : (findallTop 20 fresh exTree exExpr).res
+    = .ok (some [(['/', '/', 'l', '[', '-', '1', ']', '[', '0', ']'], .dict .plain [(['n'], .int 5)])]) := by decide
+example : getItem 20 exTree ['/', '/', 'l', '[', '-', '1', ']', '[', '0', ']']
+    = (exTree, .ok (.dict .plain [(['n'], .int 5)])) := by decide
+example : (findallTop 20 fresh exTree ['a', '/', 'k', '[', 't', 'e', 'x', 't', '(', ')', '=', 'v', ']', '/', '.', '.', '/', 'b']).res
+    = .ok (some [(['/', '/', 'a', '/', 'b'], .dict .plain [(['c'], .int 1)])]) := by decide
+-- the hypothesis "no key twice" is needed: on an association list that repeats a key the second
+-- entry is visited by `*` and overwrites the pair of the first
+example : (findallTop 20 fresh (.dict .n0 [(['a'], .dict .n0 [(['n'], .int 1)]), (['a'], .dict .n0 [(['n'], .int 2)])])
+    ['/', '/', '*', '/', 'n']).res = .ok (some [(['/', '/', 'a', '/', 'n'], .int 2)]) := by decide
 
 end N0.C19
